@@ -28,3 +28,11 @@ PROP.setdefault("pre", []).append(facts.make_step(['subscribe.handler.checks', '
 PROP["modules"].append("Gnmi.Props.C07L")
 PROP["theorems"] += ["Gnmi.C07L." + t for t in ["unauthenticated_if_no_acl", "single_target_denied_early", "never_sends_denied", "never_sends_unwanted",
     "allowed_unaffected", "allowed_unaffected_proj", "allowed_unaffected_partial", "allowed_still_delivered_stream"]]
+
+# bLTSFIX: allowed_still_delivered_stream is C04.converges (now modulo the logged quiet writes of event-driven suppression);
+# the exact form under an empty quiet log
+PROP["theorems"] += ["Gnmi.C07L.allowed_still_delivered_stream_exact"]
+PROP["manifest"]["level_text"] += (
+    " (LTS: allowed_still_delivered_stream is stated, like C04.converges, up to the logged quiet writes of event-driven suppression; "
+    "allowed_still_delivered_stream_exact is the equality under an empty quiet log. An unknown subscription mode is rejected at the mode "
+    "switch, after the ACL check: single_target_denied_early is unaffected.)")
